@@ -93,5 +93,6 @@ Definition mon_C16 (c : wcase) : bool :=
         (map Z.of_nat (seq 0 (Z.to_nat (m_nenq m))))).
 
 Definition case := wcase.
-Definition verdict (c : case) : nat := if mon_C16 c then classify rel_C16 c else 1.
+Definition verdict (c : case) : nat :=
+  if negb (mon_nohang c) then 1 (* a caller hangs *) else if mon_C16 c then classify rel_C16 c else 1.
 Definition mismatches (cs : list case) : list (nat * nat) := collect verdict 0 cs.
